@@ -468,13 +468,28 @@ func domURec(a, b ssa.Instruction, d int) bool {
 	}
 	// b inside a helper: a must dominate every call site of that helper
 	if isPrivateHelper(fb) {
+		sites := curSites.sites[fb]
+		if scanRoot != nil {
+			// while a unit is being scanned only the call sites inside that unit count
+			var inRoot []ssa.Instruction
+			for _, s := range sites {
+				for _, g := range unitOf(scanRoot) {
+					if s.Parent() == g {
+						inRoot = append(inRoot, s)
+					}
+				}
+			}
+			if len(inRoot) > 0 {
+				sites = inRoot
+			}
+		}
 		all := true
-		for _, s := range curSites.sites[fb] {
+		for _, s := range sites {
 			if !(s == a || domURec(a, s, d+1)) {
 				all = false
 			}
 		}
-		if all && len(curSites.sites[fb]) > 0 {
+		if all && len(sites) > 0 {
 			return true
 		}
 	}
@@ -977,10 +992,35 @@ func enumPathsCfg(f *ssa.Function, limit int, cutLoops, noInline bool) ([]upath,
 								}
 							}
 						}
-					} else if in, isI := cond.(ssa.Instruction); isI && in.Parent() == f {
+					} else if in, isI := cond.(ssa.Instruction); isI && (in.Parent() == f || func() bool {
+						// inside a helper entered once on this path the same holds
+						n := 0
+						for _, fr := range cur.Frames {
+							if fr.Call.Call.StaticCallee() == in.Parent() {
+								n++
+							}
+						}
+						return n == 1
+					}()) {
+						// the same boolean tested again, possibly through negations (!flag … case flag:)
+						base := func(v ssa.Value) (ssa.Value, bool) {
+							neg := false
+							for k := 0; k < 6; k++ {
+								u, ok := v.(*ssa.UnOp)
+								if !ok || u.Op != token.NOT {
+									break
+								}
+								v, neg = u.X, !neg
+							}
+							return v, neg
+						}
+						cb, cneg := base(cond)
 						for _, pc := range cur.Conds {
-							if pc.Cond == cond {
-								known, knownVal = true, pc.Val
+							if pb, pneg := base(pc.Cond); pb == cb {
+								if _, isC := cb.(*ssa.Const); isC {
+									continue
+								}
+								known, knownVal = true, pc.Val != (pneg != cneg)
 							}
 						}
 					}
